@@ -177,6 +177,16 @@ func (vm *VirtualMachine) runCodeInternal(ctx context.Context, codeToRun *compil
 		if r := recover(); r != nil {
 			err = fmt.Errorf("panic: %v", r)
 		}
+		if err != nil {
+			// Whatever a failed run left on the operand stack is meaningless,
+			// and a later Call on this VM would start on top of it
+			if vm.sp >= MaxStackDepth {
+				vm.sp = MaxStackDepth - 1
+			}
+			for ; vm.sp >= 0; vm.sp-- {
+				vm.stack[vm.sp] = nil
+			}
+		}
 		vm.stop()
 	}()
 
